@@ -334,8 +334,15 @@ def check_enum(cx, fn, rep, facts, mutable):
                 comp = tt[2][2]
                 if isinstance(idx, tuple) and idx[0] == 'index' and idx[1][0] == 'var':
                     ps = S.tm.pushes().get(idx[1][1], [])
-                    if len(ps) == 1 and ps[0][3]['k'] == 'Tuple' and isinstance(comp, int) and comp < len(ps[0][3]['elems']):
-                        ct = S.tm.term(ps[0][3]['elems'][comp], ps[0][0].scope)
+                    if len(ps) == 1:
+                        pv = S.tm.term(ps[0][3], ps[0][0].scope)
+                        ct = None
+                        if isinstance(pv, tuple) and pv[0] == 'tuple' and isinstance(comp, int) and 1 + comp < len(pv):
+                            ct = pv[1 + comp]
+                        elif isinstance(pv, tuple) and pv[0] == 'struct':
+                            for mt in pv[2:]:
+                                if isinstance(mt, tuple) and len(mt) == 2 and str(mt[0]) == str(comp):
+                                    ct = mt[1]
                         if ct == ('field', ('proj', 1, list(sels)[0]), 'ty'):
                             okT = True
         if not okT:
